@@ -385,76 +385,8 @@ func scenarios() []*scenario {
 				inst.check = sameResults
 				return inst
 			}},
-		{id: "S8", title: "one GenericCertPool, direct lookups: BySKI(a) || BySKI(b) || ByIssuerCountry, each caller HOLDS its result across a scheduling point while the others look up", syncBound: [2]int{3, 4}, stmtBound: [2]int{2, 2},
-			make: func(e *env) *instance {
-				mk := func() *cms.GenericCertPool {
-					p := e.pool()
-					for _, d := range e.w.OtherDER {
-						p.Add(d)
-					}
-					return p
-				}
-				shared, lone := mk(), mk()
-				// two different subject key identifiers held by the store
-				var skis [][]byte
-				for _, c := range lone.All() {
-					k, err := c.TbsCertificate.Extensions.SubjectKeyIdentifier()
-					if err != nil || k == nil || len(*k) == 0 {
-						continue
-					}
-					dup := false
-					for _, o := range skis {
-						dup = dup || bytes.Equal(o, *k)
-					}
-					if !dup {
-						skis = append(skis, bytes.Clone(*k))
-					}
-				}
-				if len(skis) < 2 {
-					panic("S8 needs a trust store with two different subject key identifiers")
-				}
-				obs := func(cs []cms.Certificate) string {
-					h := sha256.New()
-					for _, c := range cs {
-						h.Write(c.Raw)
-						h.Write([]byte{0})
-					}
-					return fmt.Sprintf("n=%d %x", len(cs), h.Sum(nil)[:6])
-				}
-				country := ""
-				for _, cc := range []string{"NL", "DE", "FR", "UT", "XX"} {
-					if len(lone.ByIssuerCountry(cc)) > 0 {
-						country = cc
-						break
-					}
-				}
-				want := []string{obs(lone.BySKI(skis[0])), obs(lone.BySKI(skis[1])), obs(lone.ByIssuerCountry(country))}
-				var hold func(string)
-				if vs.Passthrough() {
-					rv := newRendezvous(3)
-					hold = func(string) { rv.wait() }
-				} else {
-					hold = func(n string) { vs.Yield(n) }
-				}
-				before := poolContent(shared)
-				inst := &instance{threads: [][]call{
-					{{"BySKI(a)", func() string { r := shared.BySKI(skis[0]); hold("holding BySKI(a)"); return obs(r) }}},
-					{{"BySKI(b)", func() string { r := shared.BySKI(skis[1]); hold("holding BySKI(b)"); return obs(r) }}},
-					{{"ByIssuerCountry", func() string { r := shared.ByIssuerCountry(country); hold("holding ByIssuerCountry"); return obs(r) }}},
-				}, final: func() string { return fmt.Sprintf("store-unchanged-by-lookups=%v", poolContent(shared) == before) }}
-				inst.check = func(o c20.Outcome) (string, string) {
-					for i, c := range o.Calls {
-						if r := c[strings.Index(c, ": ")+2:]; r != want[i] {
-							return "held-lookup-result/changed-by-another-lookup", fmt.Sprintf("%s returned {%s} but a lone lookup on an equal store returns {%s}: a result handed to one caller was changed by another caller's lookup", c[:strings.Index(c, ": ")], r, want[i])
-						}
-					}
-					if strings.Contains(o.Final, "store-unchanged-by-lookups=false") {
-						return "shared-store/content-changed-by-lookups", "the certificates served by the shared trust store (All()) differ after the lookups"
-					}
-					return "", ""
-				}
-				return inst
-			}},
+		s8("S8", "one GenericCertPool, direct lookups: BySKI(a) || BySKI(b) || ByIssuerCountry, each caller HOLDS its result across a scheduling point while the others look up", false),
+		s8("S9", "as S8 on one CombinedCertPool with two sub-pools", true),
 		{id: "S7", title: "free-running only: 4 mobile.Verifiers released from a barrier on the (already loaded) built-in trust store", raceOnly: true,
 			make: func(e *env) *instance {
 				if err := mobile.PreloadCscaCertPool(); err != nil {
@@ -500,6 +432,93 @@ func poolContent(p cms.CertPool) string {
 		h.Write([]byte{0})
 	}
 	return fmt.Sprintf("%x", h.Sum(nil)[:8])
+}
+
+func s8(id, title string, combined bool) *scenario {
+	return &scenario{id: id, title: title, syncBound: [2]int{3, 4}, stmtBound: [2]int{2, 2},
+		make: func(e *env) *instance {
+			mk := func() *cms.GenericCertPool {
+				p := e.pool()
+				for _, d := range e.w.OtherDER {
+					p.Add(d)
+				}
+				return p
+			}
+			var shared, lone cms.CertPool = mk(), mk()
+			if combined {
+				// the same certificates behind a CombinedCertPool: the CSCA store and the other states' store as two sub-pools
+				mkc := func() cms.CertPool {
+					other := &cms.GenericCertPool{}
+					for _, d := range e.w.OtherDER {
+						other.Add(d)
+					}
+					c := &cms.CombinedCertPool{}
+					c.AddCertPool(other)
+					c.AddCertPool(e.pool())
+					return c
+				}
+				shared, lone = mkc(), mkc()
+			}
+			// two different subject key identifiers held by the store
+			var skis [][]byte
+			for _, c := range lone.All() {
+				k, err := c.TbsCertificate.Extensions.SubjectKeyIdentifier()
+				if err != nil || k == nil || len(*k) == 0 {
+					continue
+				}
+				dup := false
+				for _, o := range skis {
+					dup = dup || bytes.Equal(o, *k)
+				}
+				if !dup {
+					skis = append(skis, bytes.Clone(*k))
+				}
+			}
+			if len(skis) < 2 {
+				panic("S8 needs a trust store with two different subject key identifiers")
+			}
+			obs := func(cs []cms.Certificate) string {
+				h := sha256.New()
+				for _, c := range cs {
+					h.Write(c.Raw)
+					h.Write([]byte{0})
+				}
+				return fmt.Sprintf("n=%d %x", len(cs), h.Sum(nil)[:6])
+			}
+			country := ""
+			for _, cc := range []string{"NL", "DE", "FR", "UT", "XX"} {
+				if len(lone.ByIssuerCountry(cc)) > 0 {
+					country = cc
+					break
+				}
+			}
+			want := []string{obs(lone.BySKI(skis[0])), obs(lone.BySKI(skis[1])), obs(lone.ByIssuerCountry(country))}
+			var hold func(string)
+			if vs.Passthrough() {
+				rv := newRendezvous(3)
+				hold = func(string) { rv.wait() }
+			} else {
+				hold = func(n string) { vs.Yield(n) }
+			}
+			before := poolContent(shared)
+			inst := &instance{threads: [][]call{
+				{{"BySKI(a)", func() string { r := shared.BySKI(skis[0]); hold("holding BySKI(a)"); return obs(r) }}},
+				{{"BySKI(b)", func() string { r := shared.BySKI(skis[1]); hold("holding BySKI(b)"); return obs(r) }}},
+				{{"ByIssuerCountry", func() string { r := shared.ByIssuerCountry(country); hold("holding ByIssuerCountry"); return obs(r) }}},
+			}, final: func() string { return fmt.Sprintf("store-unchanged-by-lookups=%v", poolContent(shared) == before) }}
+			inst.check = func(o c20.Outcome) (string, string) {
+				for i, c := range o.Calls {
+					if r := c[strings.Index(c, ": ")+2:]; r != want[i] {
+						return "held-lookup-result/changed-by-another-lookup", fmt.Sprintf("%s returned {%s} but a lone lookup on an equal store returns {%s}: a result handed to one caller was changed by another caller's lookup", c[:strings.Index(c, ": ")], r, want[i])
+					}
+				}
+				if strings.Contains(o.Final, "store-unchanged-by-lookups=false") {
+					return "shared-store/content-changed-by-lookups", "the certificates served by the shared trust store (All()) differ after the lookups"
+				}
+				return "", ""
+			}
+			return inst
+		}}
 }
 
 func s5(id, title string, fail bool) *scenario {
